@@ -647,3 +647,13 @@ Example C08_tr_reg_nonvacuous :
   | CLite.Err _ => []
   end = [Some three; Some two; Some one; None; Some three; Some two].
 Proof. split; [exact TrReg.regs_at_init|vm_compute; reflexivity]. Qed.
+
+(* reg_done() (exit of the editor): every block a register points to is freed -- once: the cells are pairwise distinct and a
+   second free of a block is an error of the semantics --, every other block is unchanged (free_cells: the blocks emptied one
+   cell after the other); the cells of bufs keep their pointers *)
+Theorem C08_tr_reg_done : forall m pb lb R d fuel, TrReg.regs_at m pb lb R -> (257 <= fuel)%nat ->
+  CLite.callf GenCFuncs.cprog fuel (S d) GenCFuncs.F_reg_done [] m = CLite.Ok (CLite.VUndef, TrReg.free_cells pb m) /\
+  (forall c b o, (c < 256)%nat -> TrReg.cellp pb c = CLite.VPtr b o -> nth_error (TrReg.free_cells pb m) b = Some []) /\
+  (forall b, (forall c o, (c < 256)%nat -> TrReg.cellp pb c <> CLite.VPtr b o) -> nth_error (TrReg.free_cells pb m) b = nth_error m b).
+Proof. exact TrReg.tr_reg_done. Qed.
+Print Assumptions C08_tr_reg_done.
